@@ -85,6 +85,11 @@ def run(tier, seed, model_ok, spec_ok, replay=None):
             doc, pt = pg.shared_doc_and_path(mods_p=0.85)
         elif g.r.random() < 0.06:
             doc, pt = pg.mixed_doc_and_path()
+        elif g.r.random() < 0.06:
+            # one part object at several positions, over a homogeneous nest of mappings / lists with dead ends
+            kind = g.r.choice(["dict", "list"])
+            doc = g.container(4, 3, kind)
+            doc, pt = pg.repeated_part_path(doc)
         if pt.mods and g.r.random() < 0.3:
             pt.warm = (copy_value(doc),)     # get_data is called on the path before the modifiers are applied to it
         entry = g.r.choice(["path_raw", "path_data", "data_get_path", "bound_source"])
